@@ -24,7 +24,7 @@ type Config struct {
 	N       int
 	Side    ref.Side // side of the WRITER
 	NoFlush bool
-	Ext     int // 0 none, 1 func setting RSV2 on first frame, 2 wsflate.MessageState(compressed)
+	Ext     int // 0 none, 1 func setting RSV2 on first frame, 2 wsflate.MessageState(compressed), 3 / 4 both of them (either order), each owning its own bit
 	Op      byte
 }
 
@@ -73,6 +73,32 @@ func configure(w *wsutil.Writer, cfg Config) func(bool) byte {
 				return 4
 			}
 			return 0
+		}
+	case 3, 4:
+		// two negotiated extensions, each owning ONE reserved bit and leaving the others as it found them: a frame
+		// carries what ALL of them set, in whichever order they were given
+		rsv2 := wsutil.SendExtensionFunc(func(h ws.Header) (ws.Header, error) {
+			if h.OpCode != ws.OpContinuation {
+				h.Rsv |= ws.Rsv(false, true, false)
+			}
+			return h, nil
+		})
+		ms := &wsflate.MessageState{}
+		ms.SetCompressed(true)
+		if cfg.Ext == 3 {
+			w.SetExtensions(rsv2, ms)
+		} else {
+			w.SetExtensions(ms, rsv2)
+		}
+		rsv = func(first bool) byte {
+			var b byte
+			if first {
+				b |= 2
+				if !ref.IsControl(cfg.Op) {
+					b |= 4
+				}
+			}
+			return b
 		}
 	}
 	if cfg.NoFlush {
@@ -247,6 +273,8 @@ var enumConfigs = []Config{
 	{Ctor: "NewWriterSize", N: 20, Side: ref.SideClient, Ext: 1, Op: ref.OpBinary},
 	{Ctor: "NewWriterBufferSize", N: 12, Side: ref.SideNone, Ext: 2, Op: ref.OpText},
 	{Ctor: "GetWriter", N: 128, Side: ref.SideClient, NoFlush: true, Op: ref.OpBinary},
+	{Ctor: "NewWriterSize", N: 24, Side: ref.SideServer, Ext: 3, Op: ref.OpBinary},
+	{Ctor: "NewWriterBufferSize", N: 10, Side: ref.SideClient, Ext: 4, Op: ref.OpText},
 }
 
 func subEnum() mon.Sub {
@@ -301,7 +329,7 @@ var sizeList = []int{3, 4, 7, 8, 16, 125, 126, 127, 129, 131, 132, 135, 65537, 6
 
 func randConfig(c *mon.C) Config {
 	cfg := Config{Ctor: ctorNames[c.Rng.Intn(len(ctorNames))], N: sizeList[c.Rng.Intn(len(sizeList))], Side: ref.Side(c.Rng.Intn(3)),
-		NoFlush: c.Rng.Intn(5) == 0, Ext: []int{0, 0, 1, 2}[c.Rng.Intn(4)], Op: []byte{ref.OpText, ref.OpBinary}[c.Rng.Intn(2)]}
+		NoFlush: c.Rng.Intn(5) == 0, Ext: []int{0, 0, 1, 2, 3, 4}[c.Rng.Intn(6)], Op: []byte{ref.OpText, ref.OpBinary}[c.Rng.Intn(2)]}
 	if c.Rng.Intn(3) != 0 && cfg.N > 60000 {
 		cfg.N = sizeList[c.Rng.Intn(12)]
 	}
